@@ -149,7 +149,11 @@ pub fn gen_bytes_from(t: &mut Tape, alpha: &[&[u8]]) -> Vec<u8> {
 }
 
 pub fn gen_pairs(t: &mut Tape, max: usize) -> Pairs {
-    let n = t.below(max + 1);
+    let mut n = t.below(max + 1);
+    if max >= 4 && t.chance(60) {
+        // a long parameter list with few distinct names (sorting by name alone is not enough)
+        n = 33 + t.below(30);
+    }
     let mut v: Pairs = Vec::new();
     for _ in 0..n {
         if !v.is_empty() && t.chance(4) {
@@ -278,6 +282,12 @@ pub fn gen_logical(t: &mut Tape, node: &Node, k: &ReqKnobs) -> Logical {
         }
         0 if k.forms => {
             let mut p = gen_pairs(t, k.max_pairs);
+            if k.form_focus && t.chance(150) {
+                // a form so large that the merged request target cannot be a URI any more
+                for i in 0..(650 + t.below(80)) {
+                    p.push((format!("parameter-with-a-long-name-{:04}", i).into_bytes(), vec![b'v'; 60 + t.below(20)]));
+                }
+            }
             if k.form_focus && !url_pairs.is_empty() && t.chance(2) {
                 // the same name in the URL and in the body
                 let (n, _) = url_pairs[t.below(url_pairs.len())].clone();
@@ -332,6 +342,10 @@ pub fn gen_logical(t: &mut Tape, node: &Node, k: &ReqKnobs) -> Logical {
         headers.insert(pos, ("x-amz-content-sha256".into(), v));
     }
     let absolute = if t.chance(8) {
+        if t.chance(4) {
+            // HTTP/2 style: the authority travels in the request target only, there is no Host header
+            headers.retain(|(n, _)| n != "host");
+        }
         Some(("http".to_string(), "example.amazonaws.com:8080".to_string()))
     } else {
         None
